@@ -15,6 +15,9 @@ TRUSTED = [
 ]
 
 
+FREE_ROUNDS = {"C09": (150, 1500), "C12": (150, 1500)}   # family -> (quick, thorough) rounds of free-running stress
+
+
 def z(n):
     return vlib.zlit(n)
 
@@ -127,6 +130,8 @@ def gen_code(g):
         return 4
     if g.startswith("steady"):
         return 5
+    if g.startswith("free-running"):
+        return 9
     return 0
 
 
@@ -216,7 +221,35 @@ def run_family(ctx, family, tier=None, seed=None, replay_cases=None):
                 # the library crashes again and again: what has been recorded is enough to report
                 break
         ctx.notes["harness_crashes"] = crashes
-        return [cases[k] for k in sorted(cases)]
+        result = [cases[k] for k in sorted(cases)]
+        # free-running stress (real goroutines, real parallelism): C09 and C12
+        if family in FREE_ROUNDS and replay_cases is None:
+            rounds = FREE_ROUNDS[family][1 if (tier or ctx.tier) == "thorough" else 0]
+            if os.path.exists(out):
+                os.remove(out)
+            env2 = dict(env)
+            env2["VERIF_FREE"] = str(rounds)
+            rc, log = vlib.sh([exe, "-test.run", "TestFree", "-test.timeout", "1200s"], cwd=d, env=env2, timeout=1500)
+            free = []
+            stats = {}
+            if os.path.exists(out):
+                with open(out) as f:
+                    for line in f:
+                        try:
+                            o = json.loads(line)
+                        except ValueError:
+                            continue
+                        if "free_stats" in o:
+                            stats = o["free_stats"]
+                        elif "stage" in o:
+                            free.append(o)
+            if rc != 0:
+                msg = "\n".join(l for l in log.split("\n") if "panic" in l or "fatal" in l or "DATA RACE" in l)[:400] or log[-400:]
+                free.append({"idx": 1999999, "family": family, "stage": {"kind": "join", "n": 0} if family == "C12" else {"kind": "fork", "par": 1, "inner": {"kind": "void"}},
+                             "icaps": [], "ocaps": [1], "inputs": [], "moves": [], "calls": [], "gen": "free-running: process crashed", "crash": msg})
+            ctx.notes["free_running"] = {"rounds": rounds, "runs_per_stage": stats, "cases_forwarded_to_coq": len(free)}
+            result += free
+        return result
     finally:
         shutil.rmtree(d, ignore_errors=True)
 
